@@ -172,9 +172,34 @@ class Case:
                 except BaseException as e:
                     result["exc"] = repr(e)[:200]
 
+            helper = None
+            if spec["reconnect_due"] == "in_pass":
+                # stop() is called from this (user) thread's side while the node's own thread is in the middle of its
+                # reconnect pass: the lost peer has just become due, the node thread is held where it creates the
+                # socket for the dial (a delay only) until stop() has announced the shutdown
+                inside = threading.Event()
+
+                def hold():
+                    if threading.current_thread() is node._connection_thread and not inside.is_set():
+                        inside.set()
+                        end = time.time() + 5
+                        while not node._stopping and time.time() < end:
+                            time.sleep(0.0005)
+                h.advance(2)
+                h.socket_creation_hook = hold
+                helper = threading.Thread(target=h.tick, name="tick-helper")
+                helper.start()
+                if inside.wait(5):
+                    self.run.cov["stop_called_inside_the_reconnect_pass"] = \
+                        self.run.cov.get("stop_called_inside_the_reconnect_pass", 0) + 1
+                else:
+                    self.run.cov["reconnect_pass_not_reached"] = self.run.cov.get("reconnect_pass_not_reached", 0) + 1
             t0 = h.now
             th = threading.Thread(target=stopper, name="stop-caller")
             th.start()
+            if helper is not None:
+                helper.join(10)
+                h.socket_creation_hook = None
             dpr_seen = {}
             self.pending_ids = {}
             self.pending_conn = {}
@@ -583,6 +608,10 @@ def run_shard(spec):
         # (the harness moves the clock by a second per pass while stop() waits: the wait timeout is sized in passes)
         run.one(many[spec["part"]], spec["part"] == 3, False, False, 5000, None, (1, 2, 3, 12)[spec["part"]])
         run.cov["cases_with_dozens_of_connections"] = run.cov.get("cases_with_dozens_of_connections", 0) + 1
+    if spec["part"] < 4:
+        conns_ = [[], [("ready", "prompt")], [("ready", "never"), ("ready", "late")], [("ready", "close")]][spec["part"]]
+        for wt in (6, 30):
+            run.one(conns_, False, "in_pass", False, wt, None, (1, 2, 3, 12)[spec["part"]])
     for i, c in enumerate(cases):
         if i % spec["parts"] != spec["part"]:
             continue
